@@ -75,6 +75,12 @@ func init() {
 		assumptions: commonAssumptions,
 		technique:   "abstract interpretation into residual programs + structural loop/effect rules on the residual ASTs",
 	}
+	checks["C18"] = &checkDef{
+		run: runR_C18,
+		explanation: "Engine R on mem for parameter arities 0..2 x result arities 0..2, comparable and not, every parameter naming: (R15) the returned closure contains exactly one call of f, with its own parameters in order, at the top level of its body (the miss path); the table is created once outside the closure; it is keyed by the argument (or an input struct of all arguments in order) only on paths where IsComparable was established, otherwise by the derived hash of that key, and then a hit requires derived Equal of a stored key with the arguments among the entries of that very bucket; every return before the call is under such a hit; after the call the results are stored under the key that was looked up — in the bucket form by appending to the current table entry, never to a snapshot taken before f ran — and returned in order; zero-argument form: a flag initially false guards the call and is set after it. G9 tabulates derive.IsComparable. Not decided: the hash/equal contract itself (C04), concurrency (not promised).",
+		assumptions: commonAssumptions,
+		technique:   "abstract interpretation into residual programs + guard-set protocol rules on the residual ASTs; predicate tabulation",
+	}
 	checks["C07"] = &checkDef{
 		run: func(c *Ctx) {
 			runG4(c.Repo, c.Rep)
